@@ -260,6 +260,15 @@ def _alaska_T(c2, b2, sub):
     return oracle.stv_ref(sub, c2, b2).T
 
 
+def _random_reseed(sd):
+    """seed the GLOBAL generators inside an interposer context (its wrapped calls use private generators; anything unwrapped
+    draws from the global ones)"""
+    import random as _r
+    import numpy as _n
+    _r.seed(sd)
+    _n.random.seed(sd % (2 ** 32))
+
+
 def check_case(ctx, case, max_runs):
     cfg, spec = case["cfg"], case["profile"]
     prof = canon.build_profile(spec)
@@ -291,7 +300,7 @@ def check_case(ctx, case, max_runs):
         if not out.ok:
             ctx.count("constructor_raised_skipped")
             ctx.case({"cfg": cfg, "profile": spec, "script": script})
-            sigs.append((script, None, None, r.draws))
+            sigs.append((script, None, None, r.draws, None))
             continue
         e = out.value
         ntb = ctx.guard("check_outcome", check_outcome, ctx, c2, e, getattr(out, "steplog", None)) or 0
@@ -301,7 +310,8 @@ def check_case(ctx, case, max_runs):
                     cfg["rule"] in ("Plurality", "SNTV", "Borda") or cfg["rule"] in rules.SCORE_RULES):
                 ctx.fail(f"{cfg['rule']}: a random tiebreak is recorded but no randomness was consumed", c2, {})
         ctx.case({"cfg": cfg, "profile": spec, "script": script}, nontrivial=ntb > 0 or r.draws == 0)
-        sigs.append((script, canon.jhash(canon.outcome_c(e)), ntb, r.draws))
+        sigs.append((script, canon.jhash(canon.outcome_c(e)), ntb, r.draws,
+                     canon.jhash([[s_.round_number, canon.tiebreaks_c(s_.tiebreaks)] for s_ in e.election_states])))
     # state leaks between elections: when an elimination/election tie was recorded, the same count is run again with two
     # of the tied candidates' names swapped throughout the profile - the same names are tied again, but every score order
     # among them is reversed, so a resolution remembered from the first count would now be wrong
@@ -331,6 +341,38 @@ def check_case(ctx, case, max_runs):
                     ctx.fail(f"{cfg['rule']}: outcome depends on the random stream but no tiebreak is recorded", c2,
                              {"scripts": [x[0] for x in oks], "outcomes": [x[1] for x in oks]})
                     break
+        # runs that record exactly the same tiebreaks (same sets, same resolutions, same rounds) made the same recorded
+        # decisions: if their outcomes still differ, a random decision was taken that no round records
+        bytb = {}
+        for s in oks:
+            bytb.setdefault(s[4], set()).add(s[1])
+        ctx.count("same_tiebreak_record_groups", len(bytb))
+        if any(len(v) > 1 for v in bytb.values()) and len({s[1] for s in oks}) > 1 and all(s[2] > 0 for s in oks):
+            ctx.fail(f"{cfg['rule']}: runs that record identical tiebreaks have different outcomes (a random decision is taken "
+                     "that no round records)", dict(case, script=oks[0][0]),
+                     {"scripts": [x[0] for x in oks], "outcomes": [x[1] for x in oks], "tiebreak_records": [x[4] for x in oks]})
+    # randomness the interposer cannot script (a primitive it does not wrap, a private generator), and a sample of the runs
+    # that met no random call at all: the same request under three real seeds must give one outcome unless a tiebreak is
+    # recorded - this does not depend on knowing where the randomness comes from
+    if script0 is None and runs:
+        hidden = any(r.unseen or r.private for _, _, r in runs)
+        if hidden:
+            ctx.count("runs_with_randomness_outside_the_wrapped_primitives")
+        if hidden or (runs[0][2].draws == 0 and int(canon.jhash([cfg, spec])[:4], 16) % 5 == 0):
+            outs = []
+            for sd in (1, 7919, 104729):
+                rr = rng.Rng("tap", seed=sd)
+                with rr:
+                    _random_reseed(sd)
+                    o = go()
+                outs.append((canon.jhash(canon.outcome_c(o.value)), sum(len(s_.tiebreaks) for s_ in o.value.election_states))
+                            if o.ok else ("raised:" + str(o.etype), None))
+            ctx.count("reseeded_groups_compared")
+            good = [x for x in outs if x[1] is not None]
+            if len({h for h, _ in good}) > 1 and any(n == 0 for _, n in good):
+                ctx.fail(f"{cfg['rule']}: the outcome differs between random seeds but no tiebreak is recorded (randomness drawn "
+                         "through a source the interposer does not script)", dict(case, script=[]),
+                         {"outcomes_by_seed": [h for h, _ in outs], "hidden_draws_detected": hidden})
     # exception vs result must not depend on the stream either, unless a tiebreak is recorded somewhere
     if any(s[1] is None for s in sigs) and oks and all(s[2] == 0 for s in oks):
         ctx.count("mixed_exception_result_groups")
